@@ -29,9 +29,11 @@ JudgeHdrDec(e, tb) ==
        cls |-> <<"hdr_dec", e.cls, e.lt>>, weight |-> e.to - e.from + 1 ]
 
 JudgeHdrEnc(e, tb) ==
-  LET okRun == \A n \in e.len_from..e.len_to : HdrEncode(e.kind, e.lt, n) = e.w0 + (n - e.len_from)
+  LET \* a run that starts at a word no header can be records a panic of the encoder (or no such kind at all)
+      valid == e.w0 + (e.len_to - e.len_from) <= 65535
+      okRun == valid /\ \A n \in e.len_from..e.len_to : HdrEncode(e.kind, e.lt, n) = e.w0 + (n - e.len_from)
       \* decoding the encoded word gives the triple back, except for the padding pattern
-      back  == \A n \in e.len_from..e.len_to :
+      back  == valid /\ \A n \in e.len_from..e.len_to :
                   LET d == HdrDecode(e.w0 + (n - e.len_from)) IN
                   IF e.kind = "inter" /\ e.lt = "six" THEN d.pad
                   ELSE ~d.pad /\ d.kind = e.kind /\ d.lt = e.lt /\ d.len = n
